@@ -7,6 +7,8 @@ the real/effective/saved gid alone; without privilege each of them fails with EP
 import errno
 import types
 
+from engine.harness_api import ns
+
 
 class Cred:
     def __init__(self, uid=0, gid=0, groups=(0,), users=None):
@@ -64,14 +66,23 @@ class Cred:
         return types.SimpleNamespace(pw_name=self.users[uid][0])
 
 
+def _gap(name):
+    def f(*a, **k):
+        from engine.harness_api import StubGap
+        raise StubGap("os.%s is not modelled by the credential stub" % name)
+    return f
+
+
 def install(util_mod, cred):
     saved = (util_mod.os, util_mod.pwd)
     real_os = saved[0]
-    ns = types.SimpleNamespace(**{k: getattr(real_os, k) for k in dir(real_os) if not k.startswith("__")})
-    ns.getuid, ns.geteuid, ns.getgid, ns.getegid = cred.getuid, cred.geteuid, cred.getgid, cred.getegid
-    ns.setuid, ns.setgid, ns.initgroups = cred.setuid, cred.setgid, cred.initgroups
-    util_mod.os = ns
-    util_mod.pwd = types.SimpleNamespace(getpwuid=cred.getpwuid)
+    fake = types.SimpleNamespace(**{k: getattr(real_os, k) for k in dir(real_os) if not k.startswith("__")})
+    fake.getuid, fake.geteuid, fake.getgid, fake.getegid = cred.getuid, cred.geteuid, cred.getgid, cred.getegid
+    fake.setuid, fake.setgid, fake.initgroups = cred.setuid, cred.setgid, cred.initgroups
+    for name in ("setreuid", "setregid", "setresuid", "setresgid", "setgroups", "seteuid", "setegid"):
+        setattr(fake, name, _gap(name))      # not modelled: must not silently fall through to the real process
+    util_mod.os = fake
+    util_mod.pwd = ns("util_mod.pwd", getpwuid=cred.getpwuid)
 
     def undo():
         util_mod.os, util_mod.pwd = saved
